@@ -62,6 +62,26 @@ CHECKS = {
          "Every prefix over {motion, still, reset} of length 6 (8), then a test-recording request, one of six 23-frame tail patterns, a second request and a second tail; 48 configurations (max-secs 0..4, fps 1..3, continuous on/off, window open/closed, motion sink throttled). Continuous sink must tile the stream in files of max-secs*fps+1 frames; each request must give exactly 21 consecutive frames from the next processed frame; the motion-sink trace must equal the request-free run.",
          "Tails are drawn from a fixed menu rather than all 2^23 patterns; file placement and space-based pruning of constant-recordings/ depend on the live file system and are not enumerated.",
          "DESIGN.md §4 C17"),
+ "C07": ("A-sequential-explorer",
+         "exhaustive enumeration of complete frame sequences over boundary-value alphabets on the real detector, oracle = transcription of the statement",
+         "Value sweep: every 4-frame sequence with one varying interior pixel over the boundary alphabet at every interior position, every 3-frame (4 thorough) sequence for every pixel pair over 4 values, all-interior binary images, on non-square resolutions (rowStop/columnStop distinguishable) with edge 0 and 1, gap 1-2, count-thresh 1,2,#interior, warmer-only x one-diff. Phase sweep: every binary sequence of length 2(gap+1)+3 for gap 1..4 with a camera reset at every position (every ring phase of the detector's comparison buffer and the fewer-than-gap-frames fallback).",
+         "Universality over pixel data is outside state enumeration: values outside the alphabet {T-1,T,T+1,T+d,T+d+1,T+2d+2,0,1,65535} and images beyond 5x4 are not enumerated.",
+         "DESIGN.md §4 C07"),
+ "C08": ("A-sequential-explorer",
+         "exhaustive enumeration of stream pairs (base stream x single/all border perturbation x frame position; cold-pixel substitutions) through the real detector and processor; relational oracle",
+         "Every 3-frame (4) base stream with one varying interior pixel over 6 boundary values at every interior position x every single border pixel rewritten with {0,65535} ({0,1,T,65535}) in each frame and in all frames, all border pixels at once, and every sub-threshold interior pixel replaced by another value <= T; resolutions 5x4, 4x5 (edge 1), 6x5 (edge 2); fixed threshold (4 modes) and dynamic threshold with bounds unset/set. Detection results, sink traces (incl. threshold/background at each start) and the interior background/threshold after every frame must be identical within a pair.",
+         "Deep layer reads detector.background/tempThresh by name; perturbation values outside the stated sets are not enumerated.",
+         "DESIGN.md §4 C08"),
+ "C09": ("A-sequential-explorer",
+         "exhaustive enumeration of streams with FFC periods and resets on the real detector; suppression oracle + relational independence oracle over the whole enumerated set",
+         "Every stream of length 2..6 (8) over three scenes x {FFC-affected, not} with <=2 FFC periods of any length and <=1 reset at any position, FFC timing at the 10 s boundary values, gap 1..3 x one-diff x warmer-only x fixed/dynamic threshold. (i) no FFC frame nor the frame after a period reports motion; (ii) streams agreeing from the first frame after the last FFC period (or reset, fixed threshold) must agree on all results from there on.",
+         "One open known finding (dynamic threshold kept across a reset that coincides with an FFC period) is listed in KNOWN_FINDINGS.jsonl and reported as KNOWN-FINDING; any other dependence is a VIOLATION.",
+         "DESIGN.md §4 C09"),
+ "C15": ("A-sequential-explorer",
+         "exhaustive enumeration of streams (values around the threshold bounds, FFC period, reset) on the real detector with dynamic threshold; invariant oracle after every frame and at every StartRecording",
+         "Every stream of length 3..5 (6) over per-pixel alphabets placing the scene mean below/inside/above [min,max], interiors of 1, 2 and 4 pixels (edge 0,1,2), <=1 FFC period and <=1 reset at any position, (min,max) unset/set in all four combinations, preview frames 0..2: background <= frame, border replication, re-seed after FFC/reset, threshold unchanged or the bounded mean, stored background/threshold equal the ones in force at the trigger.",
+         "Deep layer reads detector.background/tempThresh by name (API layer via StartRecording arguments needs no private access).",
+         "DESIGN.md §4 C15"),
 }
 NOT_BUILT = "check not built yet (work in progress)"
 
